@@ -179,7 +179,46 @@ def glue_harness(root):
             "all_threads": lambda ex: [ex._monitor_thread, ex._submit_thread]}
 
 
-HARNESSES = {"docker": docker_harness, "aws_glue": glue_harness, "aws_batch": batch_harness, "aws_batch+arrayer": lambda root: batch_harness(root, arrayer=True)}
+# ------------------------------------------------------------------------------------------------ k8s
+def k8s_harness(root):
+    """K8SExecutor without job arrays: Kubernetes API faked (every job is reported succeeded when described)."""
+    import redun.executors.k8s as mod
+    from redun.config import Config
+    from redun.executors import k8s_utils
+
+    conf = Config({"e": {"image": "img", "scratch": os.path.join(root, "scratch"), "job_monitor_interval": "1", "code_package": "False",
+                         "min_array_size": "0", "max_array_size": "0", "create_namespace": "False", "import_aws_secrets": "False", "type": "k8s"}})["e"]
+    created = {}
+
+    def v1job(name):
+        ns = types.SimpleNamespace
+        return ns(metadata=ns(name=name, uid="uid-" + name, labels={}), spec=ns(parallelism=1),
+                  status=ns(succeeded=1, failed=None, conditions=None, completed_indexes=None))
+
+    def submit_task(client, image, namespace, scratch, job, task, **kw):
+        name = f"redun-job-{job.eval_hash}"
+        created[name] = job
+        return v1job(name)
+
+    def k8s_describe_jobs(client, names, namespace):
+        return [v1job(n) for n in names if n in created]
+
+    class FakeClient:
+        core = None
+
+        def version(self):
+            return (1, 25)
+
+    patches = [(mod, "submit_task", submit_task), (mod, "k8s_describe_jobs", k8s_describe_jobs), (mod, "get_k8s_job_pods", lambda core, name: iter(())),
+               (mod, "parse_job_result", lambda scratch, job: (1, True)), (k8s_utils, "K8SClient", FakeClient), (k8s_utils, "delete_job", lambda *a, **k: None),
+               (mod.K8SExecutor, "_setup_secrets", lambda self: None), (mod.K8SExecutor, "gather_inflight_jobs", lambda self: None)]
+    ex_cls = mod.K8SExecutor
+    funcs = [ex_cls._start, ex_cls.stop, ex_cls._monitor, ex_cls._process_k8s_job_status, ex_cls._submit, ex_cls._submit_single_job, ex_cls._submit_jobs]
+    return {"mod": mod, "cls": "K8SExecutor", "conf": conf, "patches": patches, "funcs": funcs, "thread": lambda ex: ex._thread, "shim_modules": [mod],
+            "pending": lambda ex: len(ex.pending_k8s_jobs) + ex.arrayer.num_pending, "running": lambda ex: ex.is_running}
+
+
+HARNESSES = {"docker": docker_harness, "k8s": k8s_harness, "aws_glue": glue_harness, "aws_batch": batch_harness, "aws_batch+arrayer": lambda root: batch_harness(root, arrayer=True)}
 
 
 def scenario(case, prefix):
@@ -277,10 +316,10 @@ def run(ctx):
     cap = 10**7
     if ctx.quick:
         cases = [({"executor": "docker", "jobs": 2, "pause": 1}, 2), ({"executor": "aws_batch", "jobs": 2, "pause": 3}, 1),
-                 ({"executor": "aws_glue", "jobs": 2, "pause": 3}, 1),
+                 ({"executor": "aws_glue", "jobs": 2, "pause": 3}, 1), ({"executor": "k8s", "jobs": 2, "pause": 2}, 1),
                  ({"executor": "aws_batch", "jobs": 2, "pause": 1}, 1), ({"executor": "aws_batch+arrayer", "jobs": 2, "pause": 3}, 1)]
     else:
-        cases = [({"executor": e, "jobs": n, "pause": pz}, 3 if e == "docker" else 2) for e in HARNESSES for n in (2, 3) for pz in (1, 3)]
+        cases = [({"executor": e, "jobs": n, "pause": pz}, 3 if e == "docker" else 2) for e in HARNESSES for n in (2, 3) for pz in (1, 2, 3)]
     case_bounds = list(cases)
     roots = ctx.pmap(explore_case, [(c, b, cap, "roots") for c, b in cases], chunksize=1)
     check_harness_errors(roots)
